@@ -223,6 +223,8 @@ func cmdForeign(args []string, w *bufio.Writer) {
 			switch c.Op {
 			case "mkdir":
 				err = composed.Mkdir(c.Name, os.FileMode(c.Perm))
+			case "mkdirall":
+				err = composed.MkdirAll(c.Name, os.FileMode(c.Perm))
 			case "createfile":
 				var f afero.File
 				f, err = composed.Create(c.Name)
